@@ -15,12 +15,12 @@ from ..models import tptref as tr
 ID = 'C08'
 RULE = ('reversible chains from all connected symmetric integer matrices: n=3 over {0,1,2} (729 candidates), n=4 over {0,1} and (sampled) over {0,1,1e-5} - rare routes with fluxes down to 1e-12 - '
         '(T: {0,1,2} every 3rd) x all disjoint non-empty (sources,sinks) x populations {given, computed} x containers '
-        '{ndarray (C, Fortran-ordered, transposed view, strided view), csr,csc,coo,lil} (non-C containers on every 2nd chain in Q); state=(X,A,B,pops,container); non-trivial = >=1 '
+        '{ndarray (C, Fortran-ordered, transposed view, strided view), csr,csc,coo,lil} (non-C containers on every 2nd chain in Q); call histories: two chains through one caller-owned work matrix (ndarray, csr) refilled in place between the calls, all results held and read after the last call; state=(X,A,B,pops,container); non-trivial = >=1 '
         'intermediate state carrying non-zero reactive density')
 ASSUMPTIONS = ['flux identities are compared entrywise at 1e-6 relative + 1e-14 absolute (round-off level of the committor solve; not a fraction of the largest flux)',
                'the probability-vector clause for reactive populations is asserted only when sum(pi q+ q-) > 0; '
                'when every committor is 0 or 1 the reactive density is identically zero and the quantity is undefined (0/0)']
-GUARDS = {'wide_range_weights': 100, 'intermediate_flux': 500, 'undefined_density': 100, 'sparse': 500, 'dense_layouts': 200, 'pops_computed': 500, 'multi': 500}
+GUARDS = {'history': 500, 'wide_range_weights': 100, 'intermediate_flux': 500, 'undefined_density': 100, 'sparse': 500, 'dense_layouts': 200, 'pops_computed': 500, 'multi': 500}
 NSH = {'quick': 48, 'thorough': 192}
 CONTAINERS = ('ndarray', 'ndarrayF', 'ndarrayT', 'ndarrayS', 'csr', 'csc', 'coo', 'lil')
 
@@ -57,7 +57,7 @@ def chains(tier):
 
 
 def shards(tier, seed):
-    return [(tier, i) for i in range(NSH[tier])]
+    return [(tier, i) for i in range(NSH[tier])] + [('hist', tier, i) for i in range(8)]
 
 
 def wrap(T, cont):
@@ -160,7 +160,87 @@ def check_case(case, ctx, pairs=None):
         ctx.violation('tpt:mutates_input:%s' % cont, case, 'transition matrix modified')
 
 
+def refs(X, A, B):
+    T = X / X.sum(axis=1, keepdims=True)
+    pi = X.sum(axis=1) / X.sum()
+    q = tr.committor_ref(T, A, B)
+    want = pi[:, None] * (1 - q)[:, None] * T * q[None, :]
+    np.fill_diagonal(want, 0.0)
+    dens = pi * q * (1 - q)
+    return T, want, np.maximum(want - want.T, 0), dens
+
+
+def check_history(case, ctx):
+    """two chains through ONE caller-owned work matrix that is refilled in place between the calls; every result is held
+    and read only at the end: each must still be the flux of the chain and state sets it was computed for"""
+    from enspara import tpt
+    X1, X2 = np.array(case['X1'], float), np.array(case['X2'], float)
+    A1, B1, A2, B2 = case['A1'], case['B1'], case['A2'], case['B2']
+    cont = case['container']
+    ctx.ev()
+    ctx.guard('history')
+    ctx.state(('hist', X1.tobytes(), X2.tobytes(), cont, tuple(A1), tuple(B1), tuple(A2), tuple(B2)), nontrivial=True)
+    T1, w1, n1, d1 = refs(X1, A1, B1)
+    T2, w2, n2, d2 = refs(X2, A2, B2)
+    try:
+        if cont == 'ndarray':
+            work = T1.copy()
+        else:
+            work = sp.csr_matrix(T1)
+            nxt = sp.csr_matrix(T2)
+            if not (np.array_equal(work.indices, nxt.indices) and np.array_equal(work.indptr, nxt.indptr)):
+                return
+        held = [('reactive_fluxes#1', tpt.reactive_fluxes(work, A1, B1), w1), ('net_fluxes#1', tpt.net_fluxes(work, A1, B1), n1)]
+        p1 = tpt.reactive_populations(work, A1, B1) if d1.sum() > 1e-13 else None
+        if cont == 'ndarray':
+            work[:, :] = T2
+        else:
+            work.data[:] = nxt.data
+        held += [('reactive_fluxes#2', tpt.reactive_fluxes(work, A2, B2), w2), ('net_fluxes#2', tpt.net_fluxes(work, A2, B2), n2)]
+        p2 = tpt.reactive_populations(work, A2, B2) if d2.sum() > 1e-13 else None
+        held += [('reactive_fluxes#3', tpt.reactive_fluxes(work, A1, B1), refs(X2, A1, B1)[1])]
+    except Exception as e:
+        ctx.violation('history:raises:%s' % type(e).__name__, case, 'raised %r on %r' % (e, case))
+        return
+    for name, got, want in held:
+        g = mr.to_dense(got).astype(float)
+        if g.shape != want.shape or not close(g, want):
+            which = 'earlier_result_changed' if name.endswith('#1') else 'later_call_uses_stale_data'
+            ctx.violation('history:%s:%s' % (which, 'dense' if cont == 'ndarray' else 'sparse'), case,
+                          '%s read after all calls is %r, its own definition gives %r (%r)' % (name, g.tolist(), want.tolist(), case))
+            return
+    for name, rp, dens in (('reactive_populations#1', p1, d1), ('reactive_populations#2', p2, d2)):
+        if rp is not None:
+            rp = np.asarray(rp).astype(float).ravel()
+            wantp = dens / dens.sum()
+            if np.abs(rp - wantp).max() > 1e-9 + 1e-14 / dens.sum():
+                ctx.violation('history:populations:%s' % ('dense' if cont == 'ndarray' else 'sparse'), case, '%s %r want %r' % (name, rp.tolist(), wantp.tolist()))
+                return
+
+
 def run_shard(sh, ctx):
+    if sh[0] == 'hist':
+        _, tier, i = sh
+        cs = [X for X in chains(tier)]
+        by_n = {}
+        for X in cs:
+            by_n.setdefault(len(X), []).append(X)
+        k = 0
+        for n, lst in sorted(by_n.items()):
+            pairs = tr.ab_pairs(n)
+            step = 7 if tier == 'quick' else 2
+            for a in range(0, len(lst) - 1, step):
+                X1, X2 = lst[a], lst[(a * 3 + 1) % len(lst)]
+                for pi_, (A1, B1) in enumerate(pairs):
+                    A2, B2 = pairs[(pi_ * 5 + 2) % len(pairs)]
+                    k += 1
+                    if k % 8 != i:
+                        continue
+                    for cont in ('ndarray', 'csr'):
+                        c = {'kind': 'hist', 'X1': X1.tolist(), 'X2': X2.tolist(), 'A1': A1, 'B1': B1, 'A2': A2, 'B2': B2, 'container': cont}
+                        check_history(c, ctx)
+        ctx.sample(c)
+        return
     tier, i = sh
     cs = chains(tier)
     for j in range(i, len(cs), NSH[tier]):
@@ -177,6 +257,8 @@ def run_shard(sh, ctx):
 
 
 def replay(case, ctx):
+    if case.get('kind') == 'hist':
+        return check_history(case, ctx)
     if 'A' in case:
         check_case(case, ctx)
     else:
